@@ -145,6 +145,19 @@ def _mkmsg(**kw):
 # (i) header bit packing for all values
 
 
+
+def _lookalike(m, d):
+    """does the record data named by the msg_diff path `d` ('section/index/data') contain an octet with the top two bits set?  The recorded
+    defect rewrites data that merely LOOKS like a compression pointer; data without such an octet that does not survive is a different failure."""
+    try:
+        sec, i, _ = d.split("/")
+        return any(bool(b >= 0xC0) for b in list(getattr(m, sec)[int(i)].data))
+    except (symx.Unsupported, symx.Violation):
+        raise
+    except Exception:  # noqa
+        return True
+
+
 def h_header(X):
     dns = _dns()
     with dnsshim.installed(X.symbolic):
@@ -294,7 +307,7 @@ def _check_roundtrip(X, m, expect_ref, where):
         sec, i, _ = d.split("/")
         rr = getattr(m, sec)[int(i)]
         kind = getattr(rr, "_kind", "?")
-        X.fail(f"C25/{where}/{kind}/rdata-rewritten", f"unpack(packed(m)).{d} differs from m.{d} (record kind {kind})")
+        X.fail(f"C25/{where}/{kind}/" + ("rdata-rewritten" if _lookalike(m, d) else "rdata-changed"), f"unpack(packed(m)).{d} differs from m.{d} (record kind {kind})")
     X.check(d is None, f"C25/{where}/differs/{d}", f"unpack(packed(m)).{d} differs")
     # decoded message re-encodes to octets that decode to the same message again
     try:
@@ -364,7 +377,7 @@ def h_rt_alltypes(X, rd_len):
         d = msg_diff(m, m2)
         if d is not None:
             t = int(typ)
-            X.fail(f"C25/roundtrip/{dnsref.type_name(t)}/{'rdata-rewritten' if d.endswith('/data') else d}",
+            X.fail(f"C25/roundtrip/{dnsref.type_name(t)}/{('rdata-rewritten' if _lookalike(m, d) else 'rdata-changed') if d.endswith('/data') else d}",
                    f"record of type {t}: unpack(packed(m)).{d} differs from m.{d}")
 
 
@@ -451,7 +464,8 @@ def _decode_total(X, buf, where, reencode=True):
     if d is not None and d.endswith("/data"):
         sec, i, _ = d.split("/")
         t = int(getattr(m, sec)[int(i)].type)
-        X.fail(f"C25/{where}/{dnsref.type_name(t)}/rdata-not-stable", f"unpack(packed(unpack(b))).{d} differs from unpack(b).{d} (type {t})")
+        X.fail(f"C25/{where}/{dnsref.type_name(t)}/" + ("rdata-not-stable" if _lookalike(m, d) else "rdata-changed-on-reencode"),
+               f"unpack(packed(unpack(b))).{d} differs from unpack(b).{d} (type {t})")
     X.check(d is None, f"C25/{where}/re-decode-differs/{d}", f"unpack(packed(unpack(b))).{d} differs from unpack(b)")
     X.reach("re-decoded")
     return m
